@@ -134,26 +134,26 @@ K("k_parse_animation_direction", "tags", "parse_animation_direction: Ok iff id <
 for n in (10, 30, 49):
     K("k_tags_chunk_%d" % n, "tags", "tags::parse_chunk: one tag per declared entry, attributes as stored, in file order; Err iff short / bad direction / bad UTF-8", ["tags::parse_chunk"], label=BS, bound=shape(n))
 for n in (14, 34, 58):
-    K("k_slice_chunk_%d" % n, "slice", "slice::parse_chunk: name, keys in file order with origin/size, 9-slice iff flag 1, pivot iff flag 2", ["slice::parse_chunk", "slice::SliceKey::read", "slice::Slice9::read"], label=BS, bound=shape(n), timeout=900)
+    K("k_slice_chunk_%d" % n, "slice", "slice::parse_chunk: name, keys in file order with origin/size, 9-slice iff flag 1, pivot iff flag 2", ["slice::parse_chunk", "slice::SliceKey::read", "slice::Slice9::read"], label=BS, bound=shape(n), timeout=5400)
 for n in (4, 8, 12):
     K("k_user_data_%d" % n, "user_data", "parse_userdata_chunk: text iff bit 0, colour iff bit 1, as stored", ["user_data::parse_userdata_chunk"], label=BS, bound=shape(n))
 for n in (15, 16, 20):
     K("k_color_profile_%d" % n, "color_profile", "color_profile::parse_chunk: Ok iff >= 16 bytes, type in {none, sRGB}, fixed-gamma flag clear", ["color_profile::parse_chunk", "color_profile::parse_color_profile_type"], label=BS, bound=shape(n))
 K("k_scale_6bit", "palette", "scale_6bit_to_8bit: Err iff c >= 64 else (c<<2)|(c>>4); 0->0, 63->255, strictly monotone; all u8", ["palette::scale_6bit_to_8bit"])
 for n in (20, 26, 35):
-    K("k_palette_chunk_%d" % n, "palette", "palette::parse_chunk: one entry per index in first..=last with stored RGBA/name; Err iff last<first or short; no overflow for any first/last", ["palette::parse_chunk"], label=BS, bound=shape(n) + "; <= 4 entries", timeout=900)
+    K("k_palette_chunk_%d" % n, "palette", "palette::parse_chunk: one entry per index in first..=last with stored RGBA/name; Err iff last<first or short; no overflow for any first/last", ["palette::parse_chunk"], label=BS, bound=shape(n) + "; <= 4 entries", timeout=5400)
 for nm, n in (("k_old04_chunk_10", 10), ("k_old04_chunk_2", 2), ("k_old11_chunk_10", 10), ("k_old11_chunk_13", 13)):
-    K(nm, "palette", "legacy palette chunk: opaque entries at cumulative skip offsets; 6-bit components scaled (0x0011); later packets overwrite", ["palette::parse_old_chunk_04" if "04" in nm else "palette::parse_old_chunk_11"], label=BS, bound=shape(n), timeout=900)
-K("k_validate_indexed", "palette", "validate_indexed_pixels: Ok iff every pixel index is a palette entry", ["palette::ColorPalette::validate_indexed_pixels", "palette::ColorPalette::color"], label=BS, bound="3 pixels, <= 3 entries at symbolic (sparse) indices", timeout=900)
+    K(nm, "palette", "legacy palette chunk: opaque entries at cumulative skip offsets; 6-bit components scaled (0x0011); later packets overwrite", ["palette::parse_old_chunk_04" if "04" in nm else "palette::parse_old_chunk_11"], label=BS, bound=shape(n), timeout=5400)
+K("k_validate_indexed", "palette", "validate_indexed_pixels: Ok iff every pixel index is a palette entry", ["palette::ColorPalette::validate_indexed_pixels", "palette::ColorPalette::color"], label=BS, bound="3 pixels, <= 3 entries at symbolic (sparse) indices", timeout=5400)
 for n in (12, 27, 41):
-    K("k_ext_files_%d" % n, "external_file", "ExternalFile::parse_chunk: one entry per declared file with id and name, file order; a huge declared count does not abort", ["external_file::ExternalFile::parse_chunk"], label=BS, bound=shape(n), timeout=900)
+    K("k_ext_files_%d" % n, "external_file", "ExternalFile::parse_chunk: one entry per declared file with id and name, file order; a huge declared count does not abort", ["external_file::ExternalFile::parse_chunk"], label=BS, bound=shape(n), timeout=5400)
 for n in (15, 17, 18):
     K("k_cel_chunk_%d" % n, "cel", "cel::parse_chunk header (layer, signed x/y, opacity), linked cel frame, unknown cel types refused", ["cel::parse_chunk", "cel::CelCommon::parse", "cel::CelContent::parse"], label=BS, bound=shape(n) + "; cel type 1 or >= 4")
-K("k_cel_raw_rgba_28", "cel", "raw cel (type 0): Ok iff declared w*h*4 bytes present; header and size stored", ["cel::parse_chunk", "cel::parse_raw_cel", "cel::ImageSize::parse", "pixel::RawPixels::from_raw", "reader::AseReader::take_bytes"], label=BS, bound=shape(28), timeout=900)
-K("k_cel_raw_gray_24", "cel", "raw grayscale cel: Ok iff declared w*h*2 bytes present", ["cel::parse_chunk", "pixel::RawPixels::from_raw"], label=BS, bound=shape(24), timeout=900)
-K("k_cel_raw_indexed_23", "cel", "raw indexed cel: Ok iff declared w*h bytes present", ["cel::parse_chunk", "pixel::RawPixels::from_raw"], label=BS, bound=shape(23), timeout=900)
+K("k_cel_raw_rgba_28", "cel", "raw cel (type 0): Ok iff declared w*h*4 bytes present; header and size stored", ["cel::parse_chunk", "cel::parse_raw_cel", "cel::ImageSize::parse", "pixel::RawPixels::from_raw", "reader::AseReader::take_bytes"], label=BS, bound=shape(28), timeout=5400)
+K("k_cel_raw_gray_24", "cel", "raw grayscale cel: Ok iff declared w*h*2 bytes present", ["cel::parse_chunk", "pixel::RawPixels::from_raw"], label=BS, bound=shape(24), timeout=5400)
+K("k_cel_raw_indexed_23", "cel", "raw indexed cel: Ok iff declared w*h bytes present", ["cel::parse_chunk", "pixel::RawPixels::from_raw"], label=BS, bound=shape(23), timeout=5400)
 K("k_pixel_count", "cel", "ImageSize::pixel_count == w*h, all u16^2", ["cel::ImageSize::pixel_count"])
-K("k_cels_table", "cel", "CelsData: add_cel Ok iff frame exists and slot free; cel() returns what was stored; frame_cels() in increasing layer index for any insertion order", ["cel::CelsData::new", "cel::CelsData::add_cel", "cel::CelsData::cel", "cel::CelsData::frame_cels"], label=BS, bound="2 frames, 2 insertions, layer index <= 3 (frame ids any u16)", timeout=900)
+K("k_cels_table", "cel", "CelsData: add_cel Ok iff frame exists and slot free; cel() returns what was stored; frame_cels() in increasing layer index for any insertion order", ["cel::CelsData::new", "cel::CelsData::add_cel", "cel::CelsData::cel", "cel::CelsData::frame_cels"], label=BS, bound="2 frames, 2 insertions, layer index <= 3 (frame ids any u16)", timeout=5400)
 K("k_gray_rgba", "pixel", "Grayscale (v,a) -> (v,v,v,a); read_rgba verbatim; short pixels are errors", ["pixel::Grayscale::new", "pixel::Grayscale::into_rgba", "pixel::read_rgba"])
 K("k_indexed_as_rgba", "pixel", "Indexed::as_rgba: None iff absent; palette colour with alpha 0 iff transparent index and not background", ["pixel::Indexed::as_rgba"], bound="one palette entry at a symbolic index (the function reads one entry)")
 for n in (8, 6, 5):
@@ -162,7 +162,7 @@ K("k_tile_parse", "tile", "Tile::parse/new: id = word & id mask, flags by mask, 
 K("k_tilemap_bits", "tilemap", "TilemapData::parse_chunk refuses every bits-per-tile value other than 32 as unsupported", ["tilemap::TilemapData::parse_chunk"], label=BS, bound="6-byte header prefix")
 K("k_tile_bitmask_header", "tilemap", "TileBitmaskHeader::parse: four LE dwords id/xflip/yflip/rot", ["tilemap::TileBitmaskHeader::parse"])
 for n in (33, 34, 44):
-    K("k_tileset_head_%d" % n, "tileset", "Tileset::parse_chunk header: id, count, tile size (non-zero), signed base index, name, external reference iff flag 1", ["tileset::Tileset::parse_chunk", "tileset::ExternalTilesetReference::parse"], label=BS, bound=shape(n) + "; FILE_INCLUDES_TILES off", timeout=900)
+    K("k_tileset_head_%d" % n, "tileset", "Tileset::parse_chunk header: id, count, tile size (non-zero), signed base index, name, external reference iff flag 1", ["tileset::Tileset::parse_chunk", "tileset::ExternalTilesetReference::parse"], label=BS, bound=shape(n) + "; FILE_INCLUDES_TILES off", timeout=5400)
 K("k_pixels_per_tile", "tileset", "TileSize::pixels_per_tile == w*h, all u16^2", ["tileset::TileSize::pixels_per_tile"])
 for n in (6, 3):
     K("k_reader_prims_%d" % n, "reader", "byte/word/short/dword/long/read_exact at every position: LE value of the next w bytes, or IoError(UnexpectedEof) iff fewer remain", ["reader::AseReader::byte", "reader::AseReader::word", "reader::AseReader::short", "reader::AseReader::dword", "reader::AseReader::long", "reader::AseReader::read_exact", "reader::AseReader::skip_reserved"], label=BS, bound="cursor over %d symbolic bytes, every start position" % n)
@@ -180,6 +180,8 @@ DECODERS = [o for o in """k_parse_chunk_type k_parse_pixel_format k_check_chunk_
  k_tileset_head_33 k_tileset_head_34 k_tileset_head_44 k_pixels_per_tile k_reader_prims_6 k_reader_prims_3 k_reader_sequence k_reader_string_6
  k_reader_string_1 k_error_mapping""".split()]
 PROPS["CK"] = {"level": "proof", "obligations": DECODERS}
+PROPS["CL"] = {"level": "proof", "obligations": ["k_tags_chunk_49", "k_slice_chunk_14", "k_slice_chunk_34", "k_slice_chunk_58", "k_palette_chunk_26", "k_palette_chunk_35", "k_old04_chunk_10",
+                "k_old11_chunk_10", "k_old11_chunk_13", "k_validate_indexed", "k_indexed_as_rgba", "k_ext_files_27", "k_tileset_head_34", "k_tileset_head_44", "k_cels_table"]}
 
 # ---------------------------------------------------------------- Verus (unbounded, real text extracted each run)
 V("v_compute_parents", "parents", "compute_parents: for EVERY layer sequence whose first level is 0: result[i] is None iff level 0, else the nearest preceding layer with a smaller level (parent id < child id); terminates; the assert! can never fire",
